@@ -23,6 +23,7 @@ import (
 	"github.com/prometheus/prometheus/config"
 	"github.com/prometheus/prometheus/model/labels"
 	"github.com/prometheus/prometheus/notifier"
+	"github.com/prometheus/prometheus/util/verifhook"
 
 	"verif/harness/internal/gallina"
 	"verif/harness/internal/gen"
@@ -35,7 +36,8 @@ type arrival struct {
 
 type frame struct {
 	actor string // "Loop" | "Drainer"
-	hit   bool
+	hit   bool   // opts.Do was called for the current sendOneBatch
+	taken bool   // the Take step of the current sendOneBatch was already emitted (at the pause point)
 }
 
 type scriptEnv struct {
@@ -66,6 +68,9 @@ type scriptEnv struct {
 	transit                            []string // actors with a request in transit, oldest first
 	nTake, nOverflow, nNested          int
 	playNested                         []string // fixed scripts: steps forced while the next request is in transit
+	playHook                           []int    // fixed scripts: sizes of adds forced between nextBatch() and the encoding of the batch
+	hookAdds                           bool     // random adds in that window
+	nHookAdds                          int
 }
 
 func mkAlert(id int64, drop bool) *notifier.Alert {
@@ -164,6 +169,44 @@ func (e *scriptEnv) untransit(a string) {
 	}
 }
 
+// atPause is the verifhook handler for "c46.sendOneBatch.afterNextBatch": the current actor has
+// returned from nextBatch() (lock released) and has not yet encoded its batch.  Other goroutines
+// can call add() here; the script does.
+func (e *scriptEnv) atPause(site string, _ int) {
+	if site != "c46.sendOneBatch.afterNextBatch" || len(e.stack) == 0 {
+		return
+	}
+	fr := e.stack[len(e.stack)-1]
+	e.enterTake(fr)
+	for len(e.playHook) > 0 {
+		n := e.playHook[0]
+		e.playHook = e.playHook[1:]
+		e.addN(n)
+		e.nHookAdds++
+	}
+	if e.hookAdds {
+		for k := e.r.Intn(3); k > 0 && e.budget > 0; k-- {
+			e.budget--
+			e.doAdd()
+			e.nHookAdds++
+		}
+	}
+}
+
+// enterTake emits the Take step of the top frame's actor (once per sendOneBatch).
+func (e *scriptEnv) enterTake(fr *frame) {
+	if fr.taken {
+		return
+	}
+	fr.taken = true
+	if fr.actor == "Drainer" {
+		e.flushDrainer()
+	} else if e.stopped {
+		e.grace = false
+	}
+	e.emit("Take "+fr.actor, "T"+fr.actor[:1], true)
+}
+
 func (e *scriptEnv) do(_ context.Context, _ *http.Client, req *http.Request) (*http.Response, error) {
 	b, err := io.ReadAll(req.Body)
 	if err != nil {
@@ -172,18 +215,13 @@ func (e *scriptEnv) do(_ context.Context, _ *http.Client, req *http.Request) (*h
 	ids := parseBody(b)
 	fr := e.stack[len(e.stack)-1]
 	a := fr.actor
-	if a == "Drainer" {
-		e.flushDrainer()
-	} else {
+	e.enterTake(fr)
+	if a == "Loop" {
 		e.loopFlying = true
-		if e.stopped {
-			e.grace = false
-		}
 	}
 	fr.hit = true
 	e.nTake++
 	e.transit = append(e.transit, a)
-	e.emit("Take "+a, "T"+a[:1], true)
 	e.depth++
 	for len(e.playNested) > 0 {
 		st := e.playNested[0]
@@ -221,6 +259,7 @@ func (e *scriptEnv) do(_ context.Context, _ *http.Client, req *http.Request) (*h
 		resp = &http.Response{StatusCode: code, Status: strconv.Itoa(code), Body: io.NopCloser(bytes.NewReader(nil))}
 	}
 	e.depth--
+	fr.taken = false
 	if a == "Drainer" {
 		e.pendingDrainerRespond = true
 	}
@@ -263,10 +302,7 @@ func (e *scriptEnv) doLoopBatch() {
 	e.stack = e.stack[:len(e.stack)-1]
 	if !fr.hit {
 		// empty queue: no request
-		if e.stopped {
-			e.grace = false
-		}
-		e.emit("Take Loop", "TL", true)
+		e.enterTake(fr)
 		return
 	}
 	e.loopFlying = false
@@ -374,6 +410,7 @@ func runScript(id int, seed uint64, idx int, fx *fixedScript, cf *gallina.CaseFi
 		e.overtake = e.drain && r.Chance(1, 6)
 		e.failPct = []int{0, 20, 50}[r.Intn(3)]
 		e.budget = 6 + r.Intn(20)
+		e.hookAdds = r.Chance(1, 2)
 	}
 	amc := config.DefaultAlertmanagerConfig
 	amc.Timeout = model.Duration(1e10)
@@ -384,6 +421,8 @@ func runScript(id int, seed uint64, idx int, fx *fixedScript, cf *gallina.CaseFi
 	for i := range e.vecs {
 		e.c0[i] = e.vecs[i].WithLabelValues(e.url)
 	}
+	verifhook.SetHandler(e.atPause)
+	defer verifhook.SetHandler(nil)
 	if fx != nil {
 		fx.play(e)
 	} else {
@@ -441,6 +480,9 @@ func runScript(id int, seed uint64, idx int, fx *fixedScript, cf *gallina.CaseFi
 	}
 	if e.nNested > 0 {
 		meta.Hit("script-steps-while-in-flight")
+	}
+	if e.nHookAdds > 0 {
+		meta.Hit("script-add-between-nextBatch-and-encoding")
 	}
 	if e.nTake > 0 && (e.nOverflow > 0 || e.nNested > 0) {
 		meta.Nontrivial++
@@ -507,6 +549,28 @@ var fixedScripts = []fixedScript{
 	{name: "capacity 0", cap: 0, maxb: 1, drain: true, play: func(e *scriptEnv) {
 		e.addN(2)
 		e.doLoopBatch()
+		e.doStop()
+	}},
+	// add() lands after nextBatch() returned and before the batch is encoded (outside the lock):
+	// the batch must be a copy, whether the queue fitted in one batch or not
+	{name: "add between nextBatch and encoding, queue fits in one batch", cap: 6, maxb: 3, play: func(e *scriptEnv) {
+		e.addN(2)
+		e.playHook = []int{2, 1}
+		e.doLoopBatch()
+		e.doLoopBatch()
+	}},
+	{name: "add between nextBatch and encoding, queue larger than one batch", cap: 6, maxb: 2, play: func(e *scriptEnv) {
+		e.addN(5)
+		e.playHook = []int{3}
+		e.doLoopBatch()
+		e.playHook = []int{2}
+		e.doLoopBatch()
+		e.doLoopBatch()
+		e.doLoopBatch()
+	}},
+	{name: "add between nextBatch and encoding while draining", cap: 4, maxb: 4, drain: true, play: func(e *scriptEnv) {
+		e.addN(3)
+		e.playHook = []int{2}
 		e.doStop()
 	}},
 	// the loop goroutine's request is in transit while stop() drains the rest: the drained
